@@ -36,17 +36,22 @@
 (*   mag >= 1 is the integer ceiling of the largest absolute sample value   *)
 (*   among the inputs and outputs of the runs of that event.                *)
 (*                                                                          *)
-(* Tolerance of the two linearity laws: 11 units of 10^-7 * mag (1.1e-6     *)
-(* relative to the signal magnitude), +2 on window samples because each of  *)
-(* the three compared numbers is rounded to a unit separately.  Everything  *)
-(* else is exact (== on f32, +0 and -0 identified).                         *)
+(* Tolerance of the two linearity laws: 11 * k units of 10^-7 * mag, i.e.    *)
+(* 1.1e-6 relative to the signal magnitude times the conditioning allowance *)
+(* k >= 1 of the configuration (session constant, computed from the effect  *)
+(* parameters alone: sqrt of the number of rounding errors that are still   *)
+(* in the effect's memory, times its internal gain; derivation and formula  *)
+(* in checks/c13.py `conditioning`; k = 1..3 for memoryless effects).       *)
+(* +2 on window samples because each of the three compared numbers is       *)
+(* rounded to a unit separately.  Everything else is exact (== on f32, +0   *)
+(* and -0 identified).                                                      *)
 (*                                                                          *)
 (* Check(m, e) is the name of the first clause of the statement the event   *)
 (* contradicts, or "".                                                      *)
 EXTENDS Integers, Sequences, FiniteSets
 
 TOL  == 11
-WTOL == TOL + 2
+KMAX == 2000       \* largest conditioning allowance for which the linearity laws are evaluated at all
 
 PAbs(a) == IF a >= 0 THEN a ELSE -a
 
@@ -91,16 +96,16 @@ ChkLaw(m, e) ==
               IF e.nz # 0 \/ ~AllZero(e.wy) THEN "silence_stays_silent" ELSE ""
          [] e.a = "finite" -> ""
          [] e.a = "superpose" ->
-              IF ~m.cfg.lin \/ e.mag < 1 \/ Len(e.wa) # Len(e.wab) \/ Len(e.wb) # Len(e.wab) THEN "harness_malformed"
-              ELSE IF e.dev > TOL THEN "superposition"
-              ELSE IF \E j \in 1..Len(e.wab) : PAbs(e.wab[j] - e.wa[j] - e.wb[j]) > WTOL THEN "superposition"
+              IF ~m.cfg.lin \/ m.cfg.k < 1 \/ m.cfg.k > KMAX \/ e.mag < 1 \/ Len(e.wa) # Len(e.wab) \/ Len(e.wb) # Len(e.wab) THEN "harness_malformed"
+              ELSE IF e.dev > TOL * m.cfg.k THEN "superposition"
+              ELSE IF \E j \in 1..Len(e.wab) : PAbs(e.wab[j] - e.wa[j] - e.wb[j]) > TOL * m.cfg.k + 2 THEN "superposition"
               ELSE ""
          [] e.a = "scale" ->
               \* c = cn / cd, 1 <= cd <= 8, |cn| <= 64; the window holds wa ~ T(a), wca ~ T(c a), both rounded
-              IF ~m.cfg.lin \/ e.mag < 1 \/ e.cd < 1 \/ e.cd > 8 \/ PAbs(e.cn) > 64 \/ Len(e.wa) # Len(e.wca) THEN "harness_malformed"
-              ELSE IF e.dev > TOL THEN "scaling"
+              IF ~m.cfg.lin \/ m.cfg.k < 1 \/ m.cfg.k > KMAX \/ e.mag < 1 \/ e.cd < 1 \/ e.cd > 8 \/ PAbs(e.cn) > 64 \/ Len(e.wa) # Len(e.wca) THEN "harness_malformed"
+              ELSE IF e.dev > TOL * m.cfg.k THEN "scaling"
               ELSE IF \E j \in 1..Len(e.wca) :
-                        PAbs(e.cd * e.wca[j] - e.cn * e.wa[j]) > e.cd * (TOL + 1) + PAbs(e.cn) THEN "scaling"
+                        PAbs(e.cd * e.wca[j] - e.cn * e.wa[j]) > e.cd * (TOL * m.cfg.k + 1) + PAbs(e.cn) THEN "scaling"
               ELSE ""
          [] e.a = "split" ->
               IF e.nd # 0 \/ e.dev # 0 \/ e.w1 # e.w2 THEN "split_independent" ELSE ""
